@@ -64,7 +64,7 @@ RESET = {"c13_tq": "tq reset", "c13_trk": "trk reset", "c13_krn": "krn reset", "
 # generator floors (quick tier; thorough is far above): a run that does not reach these input classes is not
 # evidence -> exit 2
 FLOORS = {
-    "tq.digest.overflow>256": 100, "tq.digest.claimed": 500,
+    "tq.digest.overflow>256": 100, "tq.overflow.sliceShrunk": 2, "tq.schedules.compacting.armed": 2, "tq.digest.claimed": 500,
     "tq.stop.convoy.afterClaimCAS": 200, "tq.stop.acquire.beforeCompareAndDelete": 2, "tq.stop.acquire.slowBeforeLoadRefs": 50,
     "tq.auto.recv": 20, "tq.schedules.overflowSized": 5, "tq.schedules.volume": 2,
     "trk.retain.blocked": 20, "trk.finalize.withWaiters": 15, "trk.transfer": 80,
@@ -209,6 +209,20 @@ def run(ctx):
         # un-replayable tree, not evidence about the property -> exit 2, never a VIOLATION.
         m = re.search(r"(panic: .*|fatal error: .*|c13: .*)", out)
         ctx.say("HARNESS-FAILED", (m.group(1) if m else ""), out[-4000:])
+        return 2
+
+    # capabilities the harness genuinely needs: their absence is an environment problem, said so explicitly
+    # (exit 2), never a silent truncation and never a VIOLATION
+    stats_path = os.path.join(ctx.out, "c13.stats.json")
+    counters = json.load(open(stats_path))["counters"] if os.path.exists(stats_path) else {}
+    if counters.get("krn.unavailable") or counters.get("ep.connStateMap.unavailable"):
+        ctx.say("HARNESS-ENV: creating a BPF hash map (ebpf.NewMap) is not permitted in this environment; C13 needs CAP_BPF "
+                "(or CAP_SYS_ADMIN) and a sufficient RLIMIT_MEMLOCK for the kernel conn-state streams (c13_krn, `ep kleft`). "
+                "Not a verdict about the property.")
+        return 2
+    if counters.get("ib.noSocket"):
+        ctx.say("HARNESS-ENV: net.ListenUDP on 127.0.0.1:0 failed; the ingress-batch stream (c13_ib) needs one loopback UDP socket "
+                "to construct the production reader. Not a verdict about the property.")
         return 2
 
     total = 0
